@@ -11,6 +11,7 @@ func TestMain(m *testing.M) {
 		"C17sio":   C17sio,
 		"C14sio":   C14sio,
 		"C14stdio": C14stdio,
+		"C07sio":   C07sio,
 		"C15":      C15,
 		"C13sio":   C13sio,
 		"C09sio":   C09sio,
